@@ -1,0 +1,22 @@
+//go:build verif
+
+package eventbus
+
+// Contracts for the event bus (property C06), checked by /verif/govc.
+//
+// Send: every subscriber is asked exactly once, in subscription order, with the event sent.
+//@ func (*EventBus).Send
+//@   physical 0 <= nsends && nsends < 1<<49
+//@   ensures [count] nsends == old(nsends) + len(eb.subscribers)
+//@   ensures [fan-out] forall k int :: old(nsends) <= k && k < nsends ==> sendch[k] == eb.subscribers[k - old(nsends)] && sendev[k] == e.sm
+//@   ensures [log-kept] forall k int :: 0 <= k && k < old(nsends) ==> sendch[k] == old(sendch[k]) && sendev[k] == old(sendev[k])
+//@   modifies ghost(sent), nsends, sendch, sendev
+//@   loop 1: invariant nsends == old(nsends) + rangeindex + 1
+//@   loop 1: invariant forall k int :: old(nsends) <= k && k < nsends ==> sendch[k] == eb.subscribers[k - old(nsends)] && sendev[k] == e.sm
+//@   loop 1: invariant forall k int :: 0 <= k && k < old(nsends) ==> sendch[k] == old(sendch[k]) && sendev[k] == old(sendev[k])
+//
+// Subscribe appends and keeps the order of earlier subscribers.
+//@ func (*EventBus).Subscribe
+//@   ensures result == nil && len(eb.subscribers) == old(len(eb.subscribers)) + 1 && eb.subscribers[old(len(eb.subscribers))] == channel
+//@   ensures forall k int :: 0 <= k && k < old(len(eb.subscribers)) ==> eb.subscribers[k] == old(eb.subscribers[k])
+//@   modifies eb.subscribers, eb.subscribers[:]
